@@ -106,6 +106,25 @@ CLAIMS["C17"] = dict(
          "33 / 129 prefix lengths × boundary addresses × spellings and malformed texts through five routes, and through a resolved Ref.",
     note=TRUST + "Python's ipaddress module decides what a text denotes (exercised on every length and spelling); IPv6 parsing is modelled and compared but its spelling relation is not proved (partial); scope ids not generated.")
 
+CLAIMS["C13"] = dict(
+    technique="Lean 4 proof (collector over the typed value tree: returned paths ⇔ an inductive 'document sits at this path' relation, pairwise distinct, by mutual induction) + planted-document oracle on raw JSON + differential correspondence",
+    text="Discover.collectP transliterates obtain_policy_documents over the typed tree (PolicyDocument, Policy, named document, list, generic object, other). "
+         "Proved for all trees: a (path, document) is returned iff the document sits at that path (C13_complete: nothing missed at any depth, nothing "
+         "returned that is not a document node), names are the wrapper's PolicyName (C13_named), and no two returned documents share a path "
+         "(C13_once), all_statement_conditions = the Condition blocks of the returned documents (C13_conditions). The harness sends the typed tree of "
+         "each parsed resource and, independently, plants documents with unique Sids at random raw-JSON paths (objects, lists, JSON-string "
+         "encoding, wrappers) of generic and modelled resources and requires them back exactly once.",
+    note=TRUST + "the generic casting from raw JSON to the typed tree is exercised (planted documents), not modelled here (see C18); one known finding (D21) is listed in known_findings.json.")
+CLAIMS["C18"] = dict(
+    technique="Lean 4 proof (control flow of the generic cast over a parameterised engine: sound engine ⇒ cast denotes its input, by mutual induction and fuel induction over JSON-in-text nesting) + per-leaf faithfulness predicates evaluated on every observed conversion + differential correspondence",
+    text="Cast.cast transliterates _Auxiliar.cast / Generic.casting (union order, JSON decoding of text, element-wise lists, object members) over an "
+         "Engine recording what json.loads and each pydantic leaf validator answer. C18_preserves: for every engine whose leaf answers are faithful "
+         "(decidable text predicates: true/false literals, integer text, ISO dates and timestamps, CIDR text), every JSON value and every nesting of "
+         "JSON text, the cast value denotes the input (inductive Denotes relation); C18_scalars_kept, C18_shape, C18_bool_only_literals, "
+         "C18_timestamp_needs_shape. Each run sends the engine table for every reachable string, compares the cast structurally and evaluates "
+         "faithfulness of every conversion the engine made.",
+    note=TRUST + "pydantic-core leaf validators and json.loads are the engine (parameter of the theorem, checked leaf by leaf); lax but numerically faithful integer spellings are accepted; one known finding (D30b).")
+
 DESIGN_REF = {k: f"DESIGN.md §5 {k}" for k in CLAIMS}
 
 
